@@ -47,7 +47,9 @@ type profile struct {
 	cancelPct int
 }
 
-var goodPWs = []string{"Passw0rd!A", "Passw0rd!B", "Passw0rd!C", "Passw0rd!D", "Zq9#mmmmX", "N3w-Secret_pw"}
+var goodPWs = []string{"Passw0rd!A", "Passw0rd!B", "Passw0rd!C", "Passw0rd!D", "Zq9#mmmmX", "N3w-Secret_pw",
+	// passwords that look like something else - a stored hash of the site's own cost or of a higher one, a token: still just passwords
+	"$2a$04$N9qo8uLOickgx2ZMRZoMyeIjZAgcfl7p92ldGxad68LJZdL17lhWy", "$2a$12$My.Passphrase.Is.Long.And.Looks.Odd.But.It.Is.Mine.2024"}
 var badPolicyPWs = []string{"short1!", "alllowercase1!", "NoDigits!!", "NoSymbol11", "with space1!A", ""}
 
 func pick[T any](t *rapid.T, label string, xs ...T) T { return rapid.SampledFrom(xs).Draw(t, label) }
@@ -84,13 +86,19 @@ func genConfig(t *rapid.T, p profile) harness.Config {
 	c.LegacyRedirect = chance(t, "legacyredirect", 12)
 	c.NilEmptyState = chance(t, "nilemptystate", 20)
 	c.MiddlewareEarly = chance(t, "middlewareearly", 20)
+	if chance(t, "extrarules", 20) {
+		c.ExtraRulePages = subset(t, "rulepages", []string{"login", "recover_start", "recover_end", "register", "confirm"}, 50)
+	}
+	if chance(t, "upstreamlookup", 20) {
+		c.UpstreamLookup = rapid.IntRange(1, 2).Draw(t, "lookupkind")
+	}
 	c.Mount = pick(t, "mount", "/auth", "/auth", "", "/a/b")
 	c.JSON = chance(t, "json", 40)
 	c.Username = chance(t, "username", 20)
 	c.Refusal = rapid.IntRange(0, 2).Draw(t, "refusal")
 	c.LockAfter = rapid.IntRange(1, 4).Draw(t, "lockafter")
 	c.LockWindowS = pick(t, "lockwin", 60, 300, 3600)
-	c.LockDurS = pick(t, "lockdur", 30, 600, 43200)
+	c.LockDurS = pick(t, "lockdur", 30, 600, 43200, 43200, 7889400000) // the last: 250 years, "until an admin unlocks"
 	c.ExpireS = pick(t, "expire", 30, 3600)
 	c.RecoverDurS = pick(t, "recdur", 60, 3600, 86400)
 	c.RecoverLogin = chance(t, "reclogin", 50)
@@ -303,11 +311,18 @@ func drawOp(t *rapid.T, kind string, e genEnv) Op {
 		} else {
 			op.S = pick(t, "badpw", badPolicyPWs...)
 		}
+		if op.A >= 0 && chance(t, "ownpw", 50) {
+			// a returning user typing the account's real password into the sign-up form
+			op.Src, op.SA, op.S = "pw", op.A, ""
+		}
 	case "confirm":
 		op.A = rapid.IntRange(0, e.nAcct+1).Draw(t, "acct")
 		drawSecret(t, &op, e, poolCnf)
 	case "reconfirm", "lock", "unlock":
 		op.A = rapid.IntRange(0, e.nAcct+1).Draw(t, "acct")
+		if kind == "lock" && chance(t, "farban", 30) {
+			op.S, op.N = "far", pick(t, "faryear", 0, 200, 1699, 5000)
+		}
 	case "recstart":
 		op.A = drawTarget(t, e)
 	case "recget":
@@ -330,6 +345,9 @@ func drawOp(t *rapid.T, kind string, e genEnv) Op {
 	case "logout":
 		if chance(t, "othermethod", 25) {
 			op.S = pick(t, "method", "GET", "POST", "DELETE", "PUT", "HEAD", "PATCH", "OPTIONS")
+			if chance(t, "methodhint", 40) {
+				op.S2 = pick(t, "hint", "hdr", "hdr2", "query", "querylower", "form")
+			}
 		}
 	case "visit":
 		op.S = pick(t, "route", visitRoutes...)
@@ -480,9 +498,13 @@ func drawSnippet(t *rapid.T, name string, e genEnv) []Op {
 	var ops []Op
 	login := Op{K: "login", B: b, A: a, Src: "pw", SA: a}
 	switch name {
-	case "recover":
+	case "recover", "reclocked":
 		if !c.Has("recover") {
 			return nil
+		}
+		if name == "reclocked" && c.Has("lock") {
+			// the owner of a locked account goes through recovery: the lock is not the recovery's business
+			ops = append(ops, Op{K: "lock", B: b, A: a})
 		}
 		ops = append(ops, Op{K: "recstart", B: b, A: a})
 		if chance(t, "gap", 30) {
@@ -752,6 +774,9 @@ func drawSnippet(t *rapid.T, name string, e genEnv) []Op {
 		lo := Op{K: "logout", B: b}
 		if chance(t, "othermethod", 20) {
 			lo.S = pick(t, "method", "GET", "POST", "DELETE", "PUT", "HEAD", "PATCH")
+			if chance(t, "methodhint", 40) {
+				lo.S2 = pick(t, "hint", "hdr", "hdr2", "query", "querylower", "form")
+			}
 		}
 		ops = append(ops, lo)
 		if chance(t, "after", 40) {
